@@ -1,6 +1,7 @@
 """C08 - Greeks are the derivatives of the price.
 Added after the seeded-defect rounds: R4s automatic Greeks for pricers parameterised by variance / log-moneyness only; R6 precision provenance of the closed-form Greeks and of npdf/ncdf/d1/d2.
-Third round: R7 the modules keep call flag, strike and derivative they were created with."""
+Third round: R7 the modules keep call flag, strike and derivative they were created with.
+Rounds 4-5: R7 also the re-binding statements of the Black-Scholes modules."""
 import sympy as sp
 
 from .. import bsterms as B
